@@ -5,6 +5,21 @@ ROOT = os.path.dirname(os.path.dirname(os.path.abspath(__file__)))
 ALL = [f'C{i:02d}' for i in range(1, 21)]
 
 CHECKS = {
+ 'C01': dict(
+   technique='TLA+ model of the dict mailbox + selected-mailbox sync (MailboxSync.tla) checked by TLC; TLC behaviours replayed on the real server with state/response comparison; random checkpoint-interleaved multi-session executions validated by TLC against the client-view observer spec (Trace_Sync.tla)',
+   level_text='TLC checks the design invariants of MailboxSync.tla exhaustively for 2 sessions and bounded histories; seeded TLC behaviours are replayed command by command on the real server (response sequence and abstract state compared after every step); seeded random programs of 2-3 sessions are interleaved at every lock checkpoint of the real code (IDLE included) and every recorded execution is judged by TLC against Trace_Sync.tla, whose guards are exactly the clauses of the property (EXPUNGE in range, none during non-UID FETCH/STORE/SEARCH, EXISTS never shrinks, FETCH/SEARCH labels, client view = server view at command start and after each tagged response).',
+   level_note='Trusted: TLC, the strict response parser, the glass-box read of SelectedMailbox.messages._sorted. Lock acquisitions are treated as possible suspension points. Dict backend only in this check; maildir is not covered yet.',
+   design_ref='DESIGN.md section 7 C01'),
+ 'C02': dict(
+   technique='same campaign as C01; the observer clause decided is convergence: after NOOP at a quiescent point the shadow client (UIDs and flags built only from the bytes received plus its own STORE.SILENT assumptions) equals the store',
+   level_text='Design: TLC checks ConvergedUids/ConvergedFlags on MailboxSync.tla (the change log is modelled exactly as one latest record per UID). Code: every replayed TLC behaviour and every random checkpoint-interleaved execution ends with NOOP on each session at quiescence and a probe of the store; TLC validates C02_ConvergedUids / C02_ConvergedFlags on each recorded execution.',
+   level_note='Trusted: TLC, strict response parser, glass-box read of MailboxData._messages as ground truth. \\Recent is excluded from the flag comparison (session flag: C17). Dict backend only.',
+   design_ref='DESIGN.md section 7 C02'),
+ 'C16': dict(
+   technique='random checkpoint-interleaved executions with idling sessions on slow (drain-gated) connections on the real server, run until no task is runnable, validated by TLC against the observer spec Trace_Sync.tla (IdleCheck / IdleEnd clauses); MailboxSync.tla behaviours replayed as in C01',
+   level_text='Seeded schedules place bursts of APPEND/STORE/EXPUNGE/COPY/MOVE by 1-2 writers at every parking point of 1-2 idling sessions, including while the idler is blocked in drain() writing a previous notification; after the burst the loop runs until nothing is runnable and TLC checks on the recorded execution that every change made since "+ idling" (message added, removed, flags changed) has reached the idling client with no further stimulus, that pushed data obeys the C01 clauses, that DONE ends IDLE with OK and anything else with BAD.',
+   level_note='Safety encoding of the liveness property (no-task-runnable in virtual time = "finitely many scheduler steps, no later activity"). Trusted: TLC, strict response parser, the driver-owned loop. Dict backend only; the maildir polling idle loop is not covered yet.',
+   design_ref='DESIGN.md section 7 C16'),
  'C20': dict(
    technique='TLA+ model of asyncio.Lock + the read-write lock checked by TLC; every edge of the state graph replayed on the real lock; recorded executions validated by TLC trace specs',
    level_text='TLC explores every interleaving and one cancellation at any step for 3 tasks x programs of <=2 acquisitions (exclusion, counter exactness, clean at end, deadlock freedom, progress under fairness); every edge of that graph is executed on the real lock object with the full abstract state compared after each step, and every recorded execution (replays + seeded random walks) is judged by TLC against the observer spec whose guards are the clauses of the property.',
